@@ -6,6 +6,7 @@ as an implementation-level oracle."""
 import itertools
 
 import c02adv
+import c02conc
 import c02x
 import env
 import pipeline
@@ -124,6 +125,7 @@ def run(ctx):
         config_classes(ctx)
         histories(ctx)
         adv_cases = c02adv.table(ctx)
+        c02conc.run_all(ctx)
     ctx.exhaustive = True
     ctx.correspond("sp_advice_signature_table", c02adv.IMPORTS, c02adv.MODEL, c02adv.CTYPE, adv_cases, shard=100)
     ctx.correspond("sp_pipeline_signature_table", pipeline.IMPORTS, pipeline.MODEL_ACCEPT, pipeline.CTYPE, cases, shard=150)
@@ -278,6 +280,8 @@ def histories(ctx):
 def replay(ctx, payload):
     env.tool_inprocess(True)
     cell = payload.get("input")
+    if isinstance(cell, dict) and "concurrent" in cell:
+        return c02conc.replay(cell["concurrent"])
     if isinstance(cell, dict) and "script" in cell:
         print("replay of a session on long-lived object(s); the last step is the failing one")
         c02x.replay_script(cell["script"])
